@@ -296,7 +296,12 @@ PlansC03(st) ==
   \* single component replaced, together with a false claimed value
   \cup {Plan("component", "not_accept", <<ProofMut(1, c, 0), FalseValue(st)>>) : c \in Components}
   \* shape mutations, together with a false claimed value
-  \cup {Plan("shape", "not_accept", <<ProofMut(1, sh[1], sh[2]), FalseValue(st)>>) : sh \in Shapes}
+  \cup {Plan("shape", "not_accept", <<ProofMut(1, sh[1], sh[2]), FalseValue(st)>>) :
+          sh \in {x \in Shapes : x[1] \notin {"forge_columns", "forge_stretch"}}}
+  \* crafted linear-code proofs (they come with their own false value); single-polynomial groups
+  \cup {Plan("forge", "not_accept", <<ProofMut(1, sh[1], sh[2])>>) :
+          sh \in {x \in Shapes : x[1] \in {"forge_columns", "forge_stretch"} /\ Len(GroupsOfStmt(st)[1].labels) = 1
+                                   /\ (x[1] = "forge_stretch" => S # "brakedown")}}
   \* proof lists of the wrong length
   \cup (IF st.kind # "open"
         THEN {Plan("list", "not_accept", <<M(kd), FalseValue(st)>>) : kd \in {"list_empty", "list_trunc", "list_extend"}}
@@ -336,6 +341,10 @@ PlansC05(st) ==
                  (IF Cardinality(PLs(st.qs)) >= 2 /\ ContribLabels # {} THEN {"list_swap", "list_dup"} ELSE {})}
   \cup {Plan("honest", "accept", <<>>)}
 
+\* combinations with two distinct polynomials of non-zero coefficient, queried somewhere
+KeepSumCands(st) == {c \in (DOMAIN st.lcs) \X st.qs :
+                        /\ c[2][1] = st.lcs[c[1]].l
+                        /\ Cardinality({x \in LcLabels(st.lcs[c[1]]) : LcForm(st.lcs[c[1]], L)[x] # 0}) >= 2}
 LcMove(kind, e, k) == [M(kind) EXCEPT !.l = e, !.k = k]
 PlansC06(st) ==
   {Plan("value", "not_accept", <<ValueMove(key, "plus")>>) : key \in ClaimKeys(st)}
@@ -343,8 +352,9 @@ PlansC06(st) ==
           ji \in {x \in (DOMAIN st.lcs) \X (1..3) :
                     x[2] \in PolyTerms(st.lcs[x[1]]) /\ st.lcs[x[1]].terms[x[2]][2] \in NonConstLabels}}
   \cup {Plan("const", "not_accept", <<LcMove("lc_const", st.lcs[j].l, 0)>>) : j \in DOMAIN st.lcs}
-  \cup (IF LCImpl(S) = "default"
-        THEN {Plan("evals", "not_accept", <<M("lc_evals")>>), Plan("evals_keep_sum", "not_accept", <<M("lc_evals_keep_sum")>>)}
+  \cup (IF LCImpl(S) = "default" /\ st.tevals # <<>>
+        THEN {Plan("evals", "not_accept", <<M("lc_evals")>>)}
+             \cup (IF KeepSumCands(st) # {} THEN {Plan("evals_keep_sum", "not_accept", <<M("lc_evals_keep_sum")>>)} ELSE {})
         ELSE {})
   \cup {Plan("honest", "accept", <<>>)}
 
@@ -392,6 +402,8 @@ ApplyToStmt(st, m) ==
     [] m.kind = "foreign_shifted" -> [st EXCEPT !.comms[m.l].shifted = "foreign"]
     [] m.kind = "random_comm" -> [st EXCEPT !.comms[m.l].plain = "random"]
     [] m.kind = "sponge_perturb" -> [st EXCEPT !.pre = <<AB(99, 0, 0, 0)>>]
+    [] m.kind = "proof_mut" /\ m.comp \in {"forge_columns", "forge_stretch"} ->
+         [st EXCEPT !.deltas[FirstKey(st)] = 1]
     [] m.kind = "lc_coeff" ->
          LET j == LcByLabel(st.lcs, m.l) IN [st EXCEPT !.lcs[j].terms[m.k + 1][1] = @ + 1]
     [] m.kind = "lc_const" ->
@@ -402,9 +414,7 @@ ApplyToStmt(st, m) ==
     [] m.kind = "lc_evals" -> [st EXCEPT !.tevals[1].delta = 1]
     [] m.kind = "lc_evals_keep_sum" ->
          \* two transmitted evaluations of one combination at one point changed so that its value is kept
-         LET cands == {<<j, q>> \in (DOMAIN st.lcs) \X st.qs :
-                         /\ q[1] = st.lcs[j].l
-                         /\ Cardinality({x \in LcLabels(st.lcs[j]) : LcForm(st.lcs[j], L)[x] # 0}) >= 2}
+         LET cands == KeepSumCands(st)
          IN IF cands = {} THEN st
             ELSE LET c == CHOOSE x \in cands : TRUE
                      lc == st.lcs[c[1]]
